@@ -141,6 +141,15 @@ class Map(Ty):
         self.name = f"Map[{k.name},{v.name}]"
 
 
+class ObjMap(Ty):
+    """dict whose values are objects of one class: every field of the class layout lifted to an array indexed by the key."""
+    scalar = False
+
+    def __init__(self, k, cls):
+        self.k, self.cls = k, cls
+        self.name = f"Map[{k.name},Obj[{cls}]]"
+
+
 class Opt(Ty):
     scalar = False
 
@@ -193,6 +202,8 @@ def parse_ty(s, aliases=None):
             cur += ch
     parts.append(cur)
     args = [parse_ty(p, aliases) if head != "Obj" else p.strip() for p in parts]
+    if head == "Map" and isinstance(args[1], Obj):
+        return ObjMap(args[0], args[1].cls)
     return {"Opt": Opt, "Map": Map, "Bag": Bag, "Set": Set, "Seq": Seq, "Pair": Pair, "Obj": Obj}[head](*args)
 
 
